@@ -18,7 +18,7 @@ from e8_formulas import affine, NotAffine, fshow
 
 
 def sk(t):
-    return re.sub(r'#\d+\.\d+', '', show(t))
+    return re.sub(r'#(?:i\d+:)?\d+\.\d+', '', show(t))
 
 
 class Inhomogeneous(Exception):
